@@ -115,6 +115,8 @@ func faultsFor(fc *FieldCase) []dataFault {
 		add("wrong type inside a list", p+".1", "zz", p+".1")
 	case KMInt:
 		add("wrong type inside a map", p+".p", "zz", p+".p")
+	case KMSlice:
+		add("wrong type inside a map", p+".p.0", "zz", p+".p.0")
 	case KSStruct:
 		add("primitive where an object is expected", p+".0", uint64(5), p+".0")
 	case KMStruct:
